@@ -25,6 +25,21 @@ THEOREMS = [
     "TornadoModel.C04.chunk_oversize_rejected",
     "TornadoModel.C04.chunk_at_limit_ok",
     "TornadoModel.C04.gz_oversize_rejected",
+    "TornadoModel.C04.run_header_oversize_closed",
+    "TornadoModel.C04.run_header_oversize_first",
+    "TornadoModel.C04.run_body_refused",
+    "TornadoModel.C04.run_cl_oversize_refused",
+    "TornadoModel.C04.run_cl_oversize_no_data",
+    "TornadoModel.C04.run_chunk_oversize_refused",
+    "TornadoModel.C04.run_closed_absorbs",
+    "TornadoModel.C04.gz_run_oversize_refused",
+    "TornadoModel.C04.gz_run_size_gt_rejected",
+    "TornadoModel.C04.gz_run_beyond_refused",
+    "TornadoModel.C04.gz_run_accepted_whole",
+    "TornadoModel.C04.run_cl_within_delivered",
+    "TornadoModel.C04.run_cl_within_delivered_close",
+    "TornadoModel.C04.run_chunk_within_delivered",
+    "TornadoModel.C04.gz_beyond_conn_closed",
     "TornadoModel.C04.raw_body_limit_exact",
     "TornadoModel.C04.raw_body_limit_absent",
     "TornadoModel.C04.raw_delivered_le_configured",
@@ -54,17 +69,18 @@ RULE = ("server options as the application passes them: max_body_size 0 / 1..409
         "block within 2 bytes of its limit or beyond it; distinct by canonical JSON")
 EXHAUSTIVE = {"quick": False, "thorough": False}
 CLAUSE_CAVEATS = [
-    "the 'refused and closed' lemmas (cl_oversize_rejected, chunk_oversize_rejected, header_oversize_closed, …) are one-step statements about the machine in an arbitrary state; the run-level statements are delivered_le_limit and limits_monotone",
-    'the gzip delegate machine is proved on its own (gz_delivered_le_limit) and is composed with the connection machine only by the tie',
+    "the run-level acceptance theorems (run_cl_within_delivered, run_chunk_within_delivered) need the message / chunk to be completely contained in the bytes that follow the reachable state, and run_cl_within_delivered(_close) are stated for a non-empty Content-Length body; empty bodies, non-persistent chunked requests and bodies still incomplete at the end of the input are carried by the one-step lemmas *_at_limit_ok and the tie against Spec.readAll",
+    "gzip: there is no single composed machine. The wrapper (gzRun) and the connection (run) are two machines; their composition is the glue gzRefusal (the wrapper's HTTPInputError = the connection's reject400) plus 'the wrapper's limit is effLimit of the request's position' -- both are compared with the implementation on every gzip case (refusal events, the limit read at each decompressor answer), and gz_beyond_conn_closed is stated over that glue, for an arbitrary connection state rather than a reachable one; gzRun takes ONE limit for the whole body (the code re-reads connection._max_body_size per answer; the harness delegate changes it only in headers_received); _GzipMessageDelegate.finish() (flush / truncated-stream errors) is not modelled",
+    "limits_monotone requires that the run under the smaller limits never closed the connection, so it says nothing for a stream ending in a non-persistent (Connection: close / HTTP/1.0) request; those are covered by the tie only (the trace alone cannot tell a size refusal after a served request from a non-persistent finish, so a trace-level hypothesis does not exist)",
 ]
 CLAUSES = {
-    "header block larger than max_header_size is refused and the connection closed": "header_oversize_closed, header_unterminated_closed, header_at_limit_ok",
-    "declared body larger than max_body_size (or the per-request override) refused": "cl_oversize_rejected, oversize_body_closed, cl_at_limit_ok",
-    "chunked body larger than the limit refused": "chunk_oversize_rejected, chunk_at_limit_ok",
-    "gzip body decompressing beyond the limit refused": "gz_oversize_rejected",
+    "header block larger than max_header_size is refused and the connection closed": "run_header_oversize_closed, run_header_oversize_first (run level: any reachable boundary, any segmentation; trace = closed only), run_closed_absorbs; one-step: header_oversize_closed, header_unterminated_closed, header_at_limit_ok",
+    "declared body larger than max_body_size (or the per-request override) refused": "run_cl_oversize_refused, run_cl_oversize_no_data, run_body_refused (run level, limit = effLimit of the request's position incl. overrides; trace = req, 400, closed, connClose; no data, no fin); one-step: cl_oversize_rejected, oversize_body_closed, cl_at_limit_ok",
+    "chunked body larger than the limit refused": "run_chunk_oversize_refused, run_chunk_within_delivered (run level: bytes already handed over + declared chunk size > effLimit => 400, closed, nothing more delivered); one-step: chunk_oversize_rejected, chunk_at_limit_ok",
+    "gzip body decompressing beyond the limit refused": "gz_run_beyond_refused (total decompressor output over the consumed answers > limit, at any call / loop iteration => HTTPInputError, delivered <= limit), gz_run_oversize_refused, gz_run_size_gt_rejected (delegate level, all call sequences and decompressor behaviours), gz_oversize_rejected (one iteration); 400 + close: gz_beyond_conn_closed over the glue gzRefusal (compared with the implementation on every refusing gzip case)",
     "application is handed at most max_body_size body bytes": "delivered_le_limit, delivered_le_limit_eof, withinLimits_run (all streams, segmentations, overrides), gz_delivered_le_limit (all decompressor behaviours)",
     "limit values (configurations): the configured max_body_size is the limit for every value incl. 0, None falls back to max_buffer_size": "raw_body_limit_exact, raw_body_limit_absent, raw_delivered_le_configured, raw_zero_delivers_nothing, raw_zero_cl_rejected (Raw.cfg models `is not None` / `or 65536` / `or 104857600`)",
-    "requests within the limits are unaffected": "limits_monotone, limits_monotone_state (raising the limits does not change a run that never closed); boundary exactness by *_at_limit_ok; checked on every case against Spec.readAll",
+    "requests within the limits are unaffected": "run_cl_within_delivered, run_cl_within_delivered_close (run level: header block <= max_header_size and Content-Length <= limit, equality included, is delivered whole and finished), gz_run_accepted_whole (a gzip body not refused is handed over completely), limits_monotone, limits_monotone_state (raising the limits does not change a run that never closed); one-step exactness by *_at_limit_ok; checked on every case against Spec.readAll",
 }
 PARALLEL = True
 CASE_TIMEOUT = 120
@@ -126,7 +142,10 @@ def _serve_gzip(case):
             return self.d.eof
 
     async def data_received(self, chunk):
-        holder["log"].append(("G", bytes(chunk), getattr(self, "_max_body_size", None), self._decompressor is not None))
+        lim = getattr(self, "_max_body_size", None)     # before the fix: a copy taken when the wrapper was created
+        if lim is None and getattr(self, "_connection", None) is not None:
+            lim = self._connection._max_body_size          # since the fix: read from the connection at every answer
+        holder["log"].append(("G", bytes(chunk), lim, self._decompressor is not None))
         try:
             return await orig_dr(self, chunk)
         except h1.httputil.HTTPInputError:
@@ -151,20 +170,28 @@ def run_impl(case):
         with _stream_buffer(case["cfg"]):
             return base.run_impl({**case, "kind": "stream"})
     log, closed = _serve_gzip(case)
-    calls, inner, limit_seen = [], [], None
+    calls, inner, limit_seen, limits = [], [], None, set()
     for e in log:
         if e[0] == "G":
             # no Content-Encoding: gzip -> the delegate passes the chunk through; as an oracle script that is one
             # "decompress" call returning its input
             calls.append([e[1].hex(), [] if e[3] else [[e[1].hex(), 0]]])
             limit_seen = e[2]
+            if e[3]:
+                limits.add(e[2])
         elif e[0] == "A":
             calls[-1][1].append([e[1].hex(), e[2]])
         elif e[0] == "D":
             inner.append(e[1].hex())
     ev = base.canon([e for e in log if e[0] not in ("G", "A", "GR")])
-    return {"calls": calls, "inner": inner, "gz_rejected": any(e[0] == "GR" for e in log), "limit_seen": limit_seen,
-            "ev": [e if not (isinstance(e, list) and e[0] == "req") else "req" for e in ev], "closed": closed,
+    ev = [e if not (isinstance(e, list) and e[0] == "req") else "req" for e in ev]
+    gz_rejected = any(e[0] == "GR" for e in log)
+    # what the connection did after the wrapper raised: everything after the head of the refused request except the
+    # deliveries made before (and a 100 Continue)
+    last = max((i for i, e in enumerate(ev) if e == "req"), default=-1)
+    refusal = [e for e in ev[last + 1:] if isinstance(e, str) and e != "w100"] if gz_rejected else []
+    return {"limits": sorted(limits), "refusal": refusal, "calls": calls, "inner": inner, "gz_rejected": gz_rejected, "limit_seen": limit_seen,
+            "ev": ev, "closed": closed,
             "a_ok": all(e[3] >= e[2] and e[4] > 0 for e in log if e[0] == "A")}
 
 
@@ -189,7 +216,8 @@ def model_requests(case, impl):
         data = bytes.fromhex(case["data"])
         return [line(ID, "run", _cfg_wire(case["cfg"]), base.segments(data, case["cuts"]), atom(bool(case.get("eof", True))))]
     calls = [[bytes.fromhex(c), [[bytes.fromhex(o), t] for o, t in s]] for c, s in impl["calls"]]
-    return [line(ID, "gzip", [_cfg_wire(case["cfg"]), 0], calls)]
+    return [line(ID, "gzip", [_cfg_wire(case["cfg"]), case.get("idx", 0)], calls),
+            line(ID, "eff", _cfg_wire(case["cfg"]), case.get("idx", 0))]
 
 
 def model_result(case, replies):
@@ -198,14 +226,25 @@ def model_result(case, replies):
     if case["kind"] == "limit":
         ev, phase, got = vals
         return {"ev": base._hexify(ev), "closed": base._hexify(phase) == "closed", "got": got}
-    delivered, rejected, size, within = vals
-    return {"inner": base._hexify(delivered), "gz_rejected": str(rejected) == "T"}
+    delivered, rejected, size, within, refusal = vals
+    st2, vals2 = parse_reply(replies[1])
+    assert st2 == "ok", replies[1]
+    return {"inner": base._hexify(delivered), "gz_rejected": str(rejected) == "T",
+            "refusal": [str(e) for e in refusal],      # composition: the wrapper's HTTPInputError -> reject400 (gzRefusal)
+            "limit": vals2[1]}                         # composition: the wrapper compares against effLimit (Raw.cfg) idx
 
 
 def impl_view(case, impl):
     if case["kind"] == "limit":
         return {"ev": impl["ev"], "closed": impl["closed"], "got": impl["got"]}
-    return {"inner": impl["inner"], "gz_rejected": impl["gz_rejected"]}
+    # the limit(s) the wrapper compared against while decompressing; nothing observed (no gzip call) = nothing to compare
+    lims = impl["limits"]
+    seen = lims[0] if len(lims) == 1 else lims if lims else _eff_wire_default(case)
+    return {"inner": impl["inner"], "gz_rejected": impl["gz_rejected"], "refusal": impl["refusal"], "limit": seen}
+
+
+def _eff_wire_default(case):
+    return _eff(case["cfg"], case.get("idx", 0))
 
 
 def _data_lens(ev):
@@ -223,7 +262,7 @@ def spec_requests(case, impl):
         return [line(ID, "spec", _cfg_wire(case["cfg"]), bytes.fromhex(case["data"])),
                 line(ID, "within", _cfg_wire(case["cfg"]), max(nreq, len(lens) and max(lens) + 1),
                      [[i, n] for i, n in sorted(lens.items())])]
-    return [line(ID, "eff", _cfg_wire(case["cfg"]), 0)]
+    return [line(ID, "eff", _cfg_wire(case["cfg"]), case.get("idx", 0))]
 
 
 def spec_violation(case, impl, replies):
@@ -247,11 +286,18 @@ def spec_violation(case, impl, replies):
     # ValueError("decompressor.flush returned data") -> logged at ERROR, connection closed without a response (see docs).
     if not impl["a_ok"]:
         return "decompress called with max_length <= 0"
+    # the gzip request is request number idx of the connection (idx bodiless requests precede it, each finished)
+    finished = impl["ev"].count("fin") > case.get("idx", 0)
+    # what the real decompressor produced over all its calls, whatever the stream was (complete, truncated, multi-member):
+    # "decompresses beyond max_body_size" is an observed fact then, and the body must have been refused and the connection closed
+    produced = sum(len(o) // 2 for _, script in impl["calls"] for o, _ in script)
+    if case.get("gz") and produced > limit and (finished or not impl["closed"]):
+        return "gzip body decompressed to %d > limit %d and was not refused" % (produced, limit)
     full = case.get("plain_len")
     if full is not None and case.get("complete"):
-        if full > limit and ("fin" in impl["ev"] or not impl["closed"]) and "uncaught" not in impl["ev"]:
+        if full > limit and (finished or not impl["closed"]):
             return "gzip body decompressing to %d > limit %d was not refused" % (full, limit)
-        if full <= limit and case.get("comp_len", 0) <= limit and ("fin" not in impl["ev"] or got != full):
+        if full <= limit and case.get("comp_len", 0) <= limit and (not finished or got != full):
             return "gzip body within the limit (%d <= %d) was not delivered whole (got %d)" % (full, limit, got)
     return None
 
@@ -287,12 +333,13 @@ def stats(case, impl):
 
 def signature(case, impl, why):
     if why.startswith("application handed"):
-        return "%s/over-limit-delivered/%s" % (case["kind"], "override" if case["cfg"]["ov"] and case["cfg"]["ov"][0] is not None else "default")
+        ov, i = case["cfg"]["ov"], case.get("idx", 0)
+        return "%s/over-limit-delivered/%s" % (case["kind"], "override" if len(ov) > i and ov[i] is not None else "default")
     if case["kind"] == "gzip":
         if "not refused" in why:
             return "gzip/oversize-not-refused"
         if "not delivered whole" in why:
-            return "gzip/within-limit-affected/%s" % ("override" if case["cfg"]["ov"] else "default")
+            return "gzip/within-limit-affected/%s" % ("override" if len(case["cfg"]["ov"]) > case.get("idx", 0) else "default")
         return "gzip/" + re.sub(r"[^a-z]+", "-", why.lower())[:30]
     return "limit/" + base.signature({**case, "kind": "stream"}, impl, why)
 
@@ -477,8 +524,17 @@ def _gzip_case(rng):
     enc = "" if style == "plain-identity" else "Content-Encoding: %s\r\n" % rng.choice(["gzip", "gzip", "GZIP", "Gzip"])
     data = _frame(rng, comp, extra=enc)
     gz = style != "plain-identity"
-    return cfg, data, {"plain_len": len(plain), "complete": complete, "comp_len": len(comp), "gen": style,
-                       "near": abs(len(plain) - limit) <= 2 or len(plain) > limit, "gz": gz}
+    meta = {"plain_len": len(plain), "complete": complete, "comp_len": len(comp), "gen": style,
+            "near": abs(len(plain) - limit) <= 2 or len(plain) > limit, "gz": gz}
+    if rng.random() < 0.3:
+        # the gzip request is not the first one of the connection: idx bodiless requests precede it, each with its own
+        # (irrelevant) override -- the limit of the gzip request must be the one of ITS position, nothing may leak over
+        idx = rng.choice([1, 1, 2])
+        data = b"".join(b"GET /p%d HTTP/1.1\r\nHost: x\r\n\r\n" % j for j in range(idx)) + data
+        cfg["ov"] = [rng.choice([None, 0, 7, 100000]) for _ in range(idx)] + cfg["ov"]
+        meta["idx"] = idx
+        meta["gen"] = style + "+after"
+    return cfg, data, meta
 
 
 def gen_cases(rng, tier):
